@@ -218,6 +218,20 @@ func run() (code int) {
 		return 0
 	}
 	vd := verifDir()
+	goldenNamesPath = filepath.Join(vd, "golden", "names.json")
+	defer cleanupScratch()
+	if *flagNames != "" {
+		goldenNamesPath = ""
+		c, err := loadCtx(loadOpts{dir: *flagRepo, rootPath: rootPkgPath, config: "default"})
+		if err != nil {
+			panic(err)
+		}
+		if err := writeNamesFile(c, *flagNames); err != nil {
+			panic(err)
+		}
+		fmt.Println("reference names written to", *flagNames)
+		return 0
+	}
 	if *flagReplay != "" {
 		return replay(vd, *flagReplay)
 	}
@@ -537,6 +551,8 @@ func replay(vd, path string) int {
 }
 
 // ---- MANIFEST generation (maintenance: `icecheck -manifest > MANIFEST.json`) ----
+
+var flagNames = flag.String("write-names", "", "extract the reference name table from -repo and write it to this file (maintenance)")
 
 var flagMatrix = flag.Bool("matrix", false, "maintenance: load -repo once, evaluate every claimed property (quick tier, no controls, no evidence) and print one line per property")
 
